@@ -1,2 +1,4 @@
 pub mod c01;
 pub mod c03;
+pub mod c04;
+pub mod c05;
